@@ -15,6 +15,9 @@ SimTARGETS == {-4, -3, 0, 2, 5, 6}
 SimRoots == {[t |-> 1, ev |-> 1, term |-> FALSE], [t |-> 5, ev |-> 1, term |-> FALSE], [t |-> -3, ev |-> 1, term |-> FALSE],
              [t |-> 3, ev |-> 2, term |-> TRUE], [t |-> -2, ev |-> 2, term |-> TRUE],
              [t |-> 3, ev |-> 3, term |-> FALSE], [t |-> 7, ev |-> 3, term |-> FALSE]}
+(* the adaptive replay: steps of 2 and 4 ticks so that a clamped last step can itself be halved by the integrator; one root per event function *)
+SimDTSAd == {2, 4}
+SimRootsAd == {[t |-> 1, ev |-> 1, term |-> FALSE], [t |-> 3, ev |-> 2, term |-> TRUE], [t |-> 3, ev |-> 3, term |-> FALSE]}
 NoCb == {}
 Cb1 == {1, 2}
 NoDev == {}
